@@ -189,6 +189,16 @@ func (w *world) barrier() {
 		return ok && string(p.Topic) == "emitter/presence/"
 	})
 	for i, c := range w.clients {
+		// everything the broker wrote to this connection so far has been decoded by our reader once the
+		// answer to a PINGREQ sent now has been (one socket, one reader: in order); the answer itself is
+		// not an observation
+		if c.open && c.send(&mqtt.Pingreq{}) {
+			got, _ := c.waitFor(isType(mqtt.TypeOfPingresp))
+			if n := len(got); n > 0 && got[n-1].Type() == mqtt.TypeOfPingresp {
+				got = got[:n-1]
+			}
+			w.pending[i] = append(w.pending[i], got...)
+		}
 		w.pending[i] = append(w.pending[i], c.drain()...)
 	}
 }
